@@ -2137,6 +2137,59 @@ func init() {
 	})
 }
 
+
+// seqLoop describes a loop over a slice variable in range form or in `for i := 0; i < len(S); i++` form.
+type seqLoop struct {
+	body *ast.BlockStmt
+	seq  types.Object // the slice walked
+	ord  types.Object // the position variable (nil if blank)
+	elem types.Object // the element variable (range value, or a local defined as S[i]); may be nil
+}
+
+func asSeqLoop(info *types.Info, n ast.Node) *seqLoop {
+	switch x := n.(type) {
+	case *ast.RangeStmt:
+		s := objOf(info, x.X)
+		if s == nil {
+			return nil
+		}
+		l := &seqLoop{body: x.Body, seq: s}
+		if x.Key != nil {
+			l.ord = objOf(info, x.Key)
+		}
+		if x.Value != nil {
+			l.elem = objOf(info, x.Value)
+		}
+		if l.elem == nil && l.ord != nil {
+			l.elem = indexedElemVar(info, x.Body, s, l.ord)
+		}
+		return l
+	case *ast.ForStmt:
+		as, ok := x.Init.(*ast.AssignStmt)
+		if !ok || len(as.Lhs) != 1 || len(as.Rhs) != 1 {
+			return nil
+		}
+		if v, ok := constInt(info, as.Rhs[0]); !ok || v != 0 {
+			return nil
+		}
+		idx := objOf(info, as.Lhs[0])
+		cond, ok := x.Cond.(*ast.BinaryExpr)
+		if !ok || cond.Op != token.LSS || objOf(info, cond.X) != idx {
+			return nil
+		}
+		ln, ok := ast.Unparen(cond.Y).(*ast.CallExpr)
+		if !ok || !isBuiltin(info, ln, "len") || len(ln.Args) != 1 {
+			return nil
+		}
+		s := objOf(info, ln.Args[0])
+		if s == nil {
+			return nil
+		}
+		return &seqLoop{body: x.Body, seq: s, ord: idx, elem: indexedElemVar(info, x.Body, s, idx)}
+	}
+	return nil
+}
+
 func runIndexFromSameSequence(rr *RuleRun) {
 	c := rr.Ctx
 	pkg := "cty/convert"
@@ -2309,15 +2362,12 @@ func runIndexFromSameSequence(rr *RuleRun) {
 		selOf := map[types.Object]types.Object{} // index list → the slice its elements index
 		// 1. index lists and their parallel slices
 		inspectNoLit(fd.Body, func(n ast.Node) bool {
-			rs, ok := n.(*ast.RangeStmt)
-			if !ok || rs.Key == nil {
+			rs := asSeqLoop(info, n)
+			if rs == nil || rs.ord == nil {
 				return true
 			}
-			x, iv := objOf(info, rs.X), objOf(info, rs.Key)
-			if x == nil || iv == nil {
-				return true
-			}
-			inspectNoLit(rs.Body, func(m ast.Node) bool {
+			x, iv := rs.seq, rs.ord
+			inspectNoLit(rs.body, func(m ast.Node) bool {
 				ifs, ok := m.(*ast.IfStmt)
 				if !ok {
 					return true
@@ -2377,28 +2427,36 @@ func runIndexFromSameSequence(rr *RuleRun) {
 		})
 		// 3. the loops over an index list
 		inspectNoLit(fd.Body, func(n ast.Node) bool {
-			rs, ok := n.(*ast.RangeStmt)
-			if !ok {
+			rs := asSeqLoop(info, n)
+			if rs == nil {
 				return true
 			}
-			l := objOf(info, rs.X)
+			l := rs.seq
 			src, isList := selOf[l]
 			if !isList {
 				return true
 			}
-			var ord, elem types.Object
-			if rs.Key != nil {
-				ord = objOf(info, rs.Key)
-			}
-			if rs.Value != nil {
-				elem = objOf(info, rs.Value)
-			}
-			inspectNoLit(rs.Body, func(m ast.Node) bool {
+			ord, elem := rs.ord, rs.elem
+			inspectNoLit(rs.body, func(m ast.Node) bool {
 				ix, ok := m.(*ast.IndexExpr)
 				if !ok {
 					return true
 				}
 				s, i := objOf(info, ix.X), objOf(info, ix.Index)
+				// S[L[i]]: the position is read out of the list on the spot
+				if inner, ok := ast.Unparen(ix.Index).(*ast.IndexExpr); ok && objOf(info, inner.X) == l && ord != nil && objOf(info, inner.Index) == ord {
+					if s != nil && s != l {
+						if find(s) == find(l) {
+							rr.Violation(fmt.Sprintf("%s.%s/%s[%s]", pkg, declName(fd), s.Name(), exprStr(ix.Index)), ix.Pos(), fmt.Sprintf("%s has one entry per item picked into %s but is indexed with a position in the input %s read out of %s", s.Name(), l.Name(), src.Name(), l.Name()))
+						} else if find(s) == find(src) {
+							rr.OK(fmt.Sprintf("%s.%s/%s[%s]", pkg, declName(fd), s.Name(), exprStr(ix.Index)), ix.Pos(), "indexed with a position taken out of the index list")
+						}
+					}
+					return true
+				}
+				if s == l {
+					return true // reading the index list itself
+				}
 				if s == nil || i == nil || (i != ord && i != elem) {
 					return true
 				}
@@ -2653,7 +2711,7 @@ func runNormaliseBeforeStore(rr *RuleRun) {
 
 func init() {
 	register(&Rule{
-		ID: "C04.null-member-replacement-keeps-marks", Prop: "C04", Also: []string{"C08"}, Floor: 3, Controls: 0,
+		ID: "C04.null-member-replacement-keeps-marks", Prop: "C04", Also: []string{"C08"}, Floor: 1, Controls: 0,
 		Doc: "in the conversion closures of package convert, where a member of the value being converted (an element, an attribute — not the closure's own argument, which the wrapper has unmarked) is found null and a fresh cty.NullVal is produced in its place, the fresh null is given the member's marks (…WithSameMarks(member) / WithMarks): a type carries no marks, so a null built from a type alone — the member's own or the target's — drops the marks of a marked null member, and they never reach the result",
 		Run: runNullMemberReplacementKeepsMarks,
 	})
@@ -2775,7 +2833,7 @@ func init() {
 	})
 	register(&Rule{
 		ID: "C17.type-decoder-assigns-before-success", Prop: "C17", Also: []string{"C07", "C15"}, Floor: 2, Controls: 0,
-		Doc: "every successful return (nil error) of (*cty.Type).UnmarshalJSON is dominated by an assignment to the receiver: a path that returns nil without having decoded a type into *t leaves the zero Type — NilType — in place, and when that happens for a nested type description (the element type of a list, an attribute type) the outer type is built around it and later operations dereference nil",
+		Doc: "every successful return (nil error) of (*cty.Type).UnmarshalJSON is preceded, on some path at least, by an assignment to the receiver: a return of nil that no assignment can reach without having decoded a type into *t leaves the zero Type — NilType — in place, and when that happens for a nested type description (the element type of a list, an attribute type) the outer type is built around it and later operations dereference nil",
 		Run: runTypeDecoderAssignsBeforeSuccess,
 	})
 	register(&Rule{
@@ -2784,7 +2842,7 @@ func init() {
 		Run: runMemberTypeReferenceAdopts,
 	})
 	register(&Rule{
-		ID: "C09.looked-up-conversion-nil-checked", Prop: "C09", Floor: 6, Controls: 0,
+		ID: "C09.looked-up-conversion-nil-checked", Prop: "C09", Floor: 3, Controls: 0,
 		Doc: "in the unification functions a conversion looked up for an input (conversions[i] = GetConversion…(input type, result type), directly or through a helper of the package) is tested for nil before the function goes on, with an exit or a change of candidate on nil: GetConversion answers nil when no conversion exists, and a nil left in the slot means 'this input already has the result type' to the caller — an input that cannot be converted is then handed back unconverted",
 		Run: runLookedUpConversionNilChecked,
 	})
@@ -2879,13 +2937,13 @@ func runTypeDecoderAssignsBeforeSuccess(rr *RuleRun) {
 		}
 		return false
 	}
-	// must-analysis: on every path to the node an assignment to *t has happened
-	cf := c.CondFactsX(fd.Body, info, func(n ast.Node) []Effect {
+	var assigns []ast.Node
+	inspectNoLit(fd.Body, func(n ast.Node) bool {
 		if assignsRecv(n) {
-			return []Effect{{Assert: &Fact{"assigned", "recv"}}}
+			assigns = append(assigns, n)
 		}
-		return nil
-	}, nil)
+		return true
+	})
 	n := 0
 	for _, ret := range g.Returns() {
 		if len(ret.Results) != 1 || !isNilIdent(info, ret.Results[0]) {
@@ -2893,10 +2951,19 @@ func runTypeDecoderAssignsBeforeSuccess(rr *RuleRun) {
 		}
 		n++
 		key := fmt.Sprintf("%s.Type.UnmarshalJSON/return nil#%d", pkg, n)
-		if cf.HasFact(ret, "assigned", "recv") {
-			rr.OK(key, ret.Pos(), "a type was stored in the receiver on every path to this return")
+		// (established fact only: no assignment to *t lies on ANY path to this return. A path-insensitive
+		// 'assigned on every path' would reject a nested switch over the same tag whose cases are exhaustive
+		// only because of the enclosing case — a benign merge of the list / map / set arms.)
+		reached := false
+		for _, a := range assigns {
+			if g.CanReach(a, ret) {
+				reached = true
+			}
+		}
+		if reached {
+			rr.OK(key, ret.Pos(), "a type is stored in the receiver on the way to this return")
 		} else {
-			rr.Violation(key, ret.Pos(), "this successful return can be reached without anything having been stored in *t: the receiver keeps the zero Type (NilType), and a type description nested in a list, tuple or object is then built around NilType — decoding a value against it dereferences nil")
+			rr.Violation(key, ret.Pos(), "this successful return is reached without anything having been stored in *t on any path to it: the receiver keeps the zero Type (NilType), and a type description nested in a list, tuple or object is then built around NilType — decoding a value against it dereferences nil")
 		}
 	}
 }
@@ -3232,4 +3299,117 @@ func runHelperNeedsKnownArgument(rr *RuleRun) {
 			})
 		})
 	}
+}
+
+// ---------------------------------------------------------------------------
+
+func init() {
+	register(&Rule{
+		ID: "C02.hasindex-null-key-is-absent", Prop: "C02", Also: []string{"C01"}, Floor: 1, Controls: 0,
+		Doc: "Value.HasIndex, which promises not to panic because of its key, looks into the key's payload (key.v.(T), AsString, AsBigFloat) only where key.IsNull() was decided false: a null key has the right type and is known, so it passes the type and known tests and the payload assertion panics on the nil payload — HasIndex must answer False where Index would reject the key",
+		Run: runHasIndexNullKey,
+	})
+}
+
+func runHasIndexNullKey(rr *RuleRun) {
+	c := rr.Ctx
+	pkg := "cty"
+	info := c.Info(pkg)
+	fd := rr.MustDecl(pkg, "Value.HasIndex")
+	if fd == nil {
+		return
+	}
+	keyObj := info.Defs[paramIdent(fd, 0)]
+	cf := c.CondFacts(fd.Body, info, nil)
+	n := 0
+	check := func(at ast.Node, what string) {
+		n++
+		k := fmt.Sprintf("%s.Value.HasIndex/%s#%d", pkg, what, n)
+		if cf.HoldsAt(at, func(cond ast.Expr, truth bool) bool { return !truth && methodCond(info, cond, keyObj, "IsNull") }) {
+			rr.OK(k, at.Pos(), "reached only for a key that is not null")
+		} else {
+			rr.Violation(k, at.Pos(), fmt.Sprintf("the key's payload is examined (%s) on a path where key.IsNull() was not decided false: a null key of the right type is known and passes the tests above, its payload is nil, and this panics — HasIndex promises not to panic because of its key", what))
+		}
+	}
+	inspectNoLit(fd.Body, func(nd ast.Node) bool {
+		switch x := nd.(type) {
+		case *ast.TypeAssertExpr:
+			if se, ok := ast.Unparen(x.X).(*ast.SelectorExpr); ok && se.Sel.Name == "v" && objOf(info, se.X) != nil && objOf(info, se.X).Name() == keyObj.Name() && x.Type != nil {
+				// not inside the mark prologue (the rebinding there is followed by the re-invocation only)
+				check(x, "key.v.("+exprStr(x.Type)+")")
+			}
+		case *ast.CallExpr:
+			if methodCond(info, x, keyObj, "AsString", "AsBigFloat") {
+				check(x, "key."+x.Fun.(*ast.SelectorExpr).Sel.Name+"()")
+			}
+		}
+		return true
+	})
+}
+
+// ---------------------------------------------------------------------------
+
+func init() {
+	register(&Rule{
+		ID: "C20.no-shallow-big-copy-into-value", Prop: "C20", Also: []string{"C18"}, Floor: 10, Controls: 0,
+		Doc: "a math/big number that reaches cty.NumberVal was not obtained by copying a big.Float / big.Int BY VALUE (a type assertion to the struct type, or *p): such a copy duplicates the header only and shares the mantissa with the original, so the number inside the cty.Value changes when the caller later mutates its own big.Float — take the pointer's target through new(big.Float).Copy(…) / Set(…) instead",
+		Run: runNoShallowBigCopy,
+	})
+}
+
+func runNoShallowBigCopy(rr *RuleRun) {
+	c := rr.Ctx
+	isBigStruct := func(t types.Type) bool {
+		if t == nil {
+			return false
+		}
+		if _, isPtr := t.(*types.Pointer); isPtr {
+			return false
+		}
+		n := namedType(t)
+		return n == "math/big.Float" || n == "math/big.Int" || n == "math/big.Rat"
+	}
+	n := 0
+	eachFuncBody(c, allPkgs, func(pkg string, fd *ast.FuncDecl, body *ast.BlockStmt) {
+		if body == nil {
+			return
+		}
+		info := c.Info(pkg)
+		inspectNoLit(body, func(nd ast.Node) bool {
+			call, ok := nd.(*ast.CallExpr)
+			if !ok || !isCall(info, call, "cty.NumberVal") || len(call.Args) != 1 {
+				return true
+			}
+			u, ok := ast.Unparen(call.Args[0]).(*ast.UnaryExpr)
+			if !ok || u.Op != token.AND {
+				n++
+				rr.OKTrivial(fmt.Sprintf("%s.%s/NumberVal(%s)#%d", pkg, declName(fd), trunc(exprStr(call.Args[0]), 30), n), call.Pos(), "not the address of a local big number")
+				return true
+			}
+			x := objOf(info, u.X)
+			if x == nil || !isBigStruct(x.Type()) {
+				return true
+			}
+			n++
+			key := fmt.Sprintf("%s.%s/NumberVal(&%s)#%d", pkg, declName(fd), x.Name(), n)
+			_, idx, rhs := findDefine(info, body, x)
+			shallow := ""
+			if rhs != nil && idx < len(rhs) {
+				switch r := ast.Unparen(rhs[idx]).(type) {
+				case *ast.TypeAssertExpr:
+					if r.Type != nil && isBigStruct(info.TypeOf(r.Type)) {
+						shallow = "a type assertion to " + exprStr(r.Type)
+					}
+				case *ast.StarExpr:
+					shallow = "a dereference (" + exprStr(r) + ")"
+				}
+			}
+			if shallow == "" {
+				rr.OK(key, call.Pos(), "the number handed to NumberVal is not a by-value copy of another big number")
+			} else {
+				rr.Violation(key, call.Pos(), fmt.Sprintf("%s was made by %s, which copies the big number's header and shares its mantissa with the original, and its address is handed to cty.NumberVal: the cty.Value built here changes when the caller later writes to its own big.Float (f.SetFloat64(2.5) after ToCtyValue(f) turns the value 1.5 into 1.25)", x.Name(), shallow))
+			}
+			return true
+		})
+	})
 }
